@@ -148,6 +148,22 @@ CHECKS = {
 NOT_YET = "check not built yet in this round (planned: see DESIGN.md §5)"
 
 
+# properties whose anchored code is ALSO regenerated from the lerax source on every run (harness/translate/kernel.py, kernels.py) and
+# proved equal to the model / specification (coq/link/<pid>_link.v): what is regenerated
+KERNEL_LINKS = {
+    "C01": "AbstractEnvLike.step and .reset (env/base_env.py) = Env.gym_step / gym_reset for every environment record",
+    "C03": "RolloutBuffer.compute_returns_and_advantages (buffer/rollout.py) = the GAE recursion for every rollout",
+    "C04": "AbstractActorCriticOnPolicyAlgorithm.step (algorithm/on_policy.py) = OnPolicy.op_step for every environment / policy record, incl. what the step callback is handed",
+    "C05": "AbstractOffPolicyAlgorithm.step (algorithm/off_policy.py) = OffPolicy.off_step for every environment / policy record and buffer",
+    "C06": "ReplayBuffer.add and .current_size (buffer/replay.py) = Replay.soa_add / current_size for every buffer of positive capacity",
+    "C07": "DQN.dqn_loss (algorithm/dqn.py) and compute_target inside SAC.sac_train (algorithm/sac.py) = Losses.dqn_loss / td_target with sac_vnext, incl. which network sees which inputs",
+    "C08": "PPO.ppo_loss (algorithm/ppo.py) = clipped surrogate (Losses.surrogate) / value / entropy / approx-KL terms and their weighted sum",
+    "C10": "num_iterations (on_policy.py, off_policy.py), DQN.per_iteration (dqn.py), _soft_update_targets (sac.py) = Schedule.num_iterations / the copy rule of dqn_iter / polyak",
+    "C13": "every method of TimeLimit (wrapper/misc.py) and the action-wrapper methods of AbstractPureTransformActionWrapper (wrapper/transform_action.py, with base-class fallback) = Env.wrap1 layers",
+    "C19": "LoggingCallbackStepState.next (callback/logging/callback.py) = Logging.l_next field by field",
+}
+
+
 def main():
     checks = []
     na = []
@@ -155,6 +171,10 @@ def main():
         pid = p["id"]
         if pid in CHECKS:
             tech, text, note, ref = CHECKS[pid]
+            if pid in KERNEL_LINKS:
+                tech += " + Coq definitions regenerated from the lerax source on every run by a fail-closed symbolic-execution translator and proved equal to the model (link theorems re-checked by the check)"
+                text += f" Regenerated from the source and linked by theorem on every run (coq/link/{pid}_link.v): {KERNEL_LINKS[pid]}."
+                note += " The translator (harness/translate/kernel.py: executor; kernels.py: what each parameter of the translated function stands for) is trusted as a printer; a source that no longer translates or a link theorem that no longer checks is reported as a broken proof obligation."
             checks.append({
                 "property_id": pid,
                 "quick_cmd": f"./check {pid} --tier quick",
@@ -182,7 +202,7 @@ def main():
             "name": "coq-model+correspondence",
             "path": "/verif/coq, /verif/harness",
             "serves_properties": sorted(CHECKS),
-            "kind_free_text": "hand-written executable Gallina models with theorems (Coq 8.16.1), tied to /repo by differential checks whose comparison runs inside Coq (vm_compute) on inputs and implementation outputs produced by the real lerax code",
+            "kind_free_text": "kernel definitions regenerated from the lerax source by a symbolic-execution translator and linked by theorem to hand-written executable Gallina models with theorems (Coq 8.16.1), tied to /repo by differential checks whose comparison runs inside Coq (vm_compute) on inputs and implementation outputs produced by the real lerax code",
         }],
         "checks": checks,
         "not_applicable": na,
